@@ -25,6 +25,8 @@ pub struct Plan {
     pub points_per_case: usize,
     /// also explore every elementary unimodular change of the base cycle basis (an evenly spaced subset for >= 3 loops)
     pub basis_orbit: bool,
+    /// ... only for configurations with at least this many loops
+    pub basis_orbit_min_loops: usize,
 }
 
 pub fn fam_for(tier: Tier, prop: &str) -> Vec<CaseSpec> {
@@ -86,7 +88,7 @@ pub fn fam_for(tier: Tier, prop: &str) -> Vec<CaseSpec> {
         }
         // necklace: two bubbles (edge-disjoint cycles) coupled through a third cycle: exact zeros in L with Cholesky fill-in
         let necklace: Vec<(u8, u8)> = vec![(0, 1), (0, 1), (1, 2), (1, 2), (2, 0)];
-        for (topo, exts) in [(crate::scope::kite(), vec![vec![0u8, 3], vec![0, 1, 3]]), (crate::scope::banana(3), vec![vec![0u8, 1]]), (necklace, vec![vec![0u8, 1], vec![0, 1, 2]])] {
+        for (topo, exts) in [(crate::scope::kite(), vec![vec![0u8, 3], vec![0, 1, 3]]), (crate::scope::banana(3), vec![vec![0u8, 1]]), (necklace, vec![vec![0u8, 1], vec![0, 1, 2]]), (crate::scope::mercedes(), vec![vec![0u8, 1, 2]])] {
             let ne = topo.len();
             for massive in [vec![false; ne], (0..ne).map(|e| e == 1).collect::<Vec<bool>>()] {
                 for ext in &exts {
@@ -137,7 +139,7 @@ pub fn explore(plan: &Plan, f: &PointFn) -> Acc {
         };
         acc.hist("construction_path", base.via);
         let mut orbit_routed: Vec<Routed> = vec![];
-        if plan.basis_orbit && case.nl >= 2 {
+        if plan.basis_orbit && case.nl >= plan.basis_orbit_min_loops.max(2) {
             let bk = case.base_kin();
             let mut ks: Vec<oracle::kin::Kin> = oracle::kin::elementary_unimodular(case.nl).iter().map(|m| bk.change_basis(m)).collect();
             let keep = match case.nl {
@@ -884,7 +886,8 @@ pub fn run_c02(ctx: &Ctx) -> i32 {
         sector_stride: tier.pick(7, 3),
         tropical_routing: true,
         points_per_case: tier.pick(3000, 40000),
-        basis_orbit: false,
+        basis_orbit: true,
+        basis_orbit_min_loops: 3,
     };
     let mut acc = explore(&plan, &c02_point);
     sample_from_plan(&plan, &mut acc);
@@ -923,6 +926,7 @@ pub fn c16b(ctx: &Ctx) -> Acc {
             tropical_routing: false,
             points_per_case: tier.pick(600, 10000),
             basis_orbit: false,
+        basis_orbit_min_loops: 2,
         };
         let f = move |case: &Case, r: &Routed, po: &PointObs, _nd: usize, acc: &mut Acc| {
             acc.inc("evaluations");
@@ -1055,6 +1059,7 @@ pub fn c12_binding(ctx: &Ctx) -> Acc {
         tropical_routing: false,
         points_per_case: 100,
         basis_orbit: false,
+        basis_orbit_min_loops: 2,
     };
     let f = |case: &Case, r: &Routed, po: &PointObs, nd: usize, acc: &mut Acc| c12_binding_point(case, r, po, nd, acc);
     let mut acc = explore(&plan, &f);
@@ -1127,6 +1132,7 @@ pub fn run_simple(ctx: &Ctx) -> i32 {
             _ => tier.pick(1500, 20000),
         },
         basis_orbit: prop == "C10",
+        basis_orbit_min_loops: 2,
     };
     let f: &PointFn = match prop {
         "C07" => &c07_point,
